@@ -90,9 +90,14 @@ func VerifH_C02_specReaderCompressed() {
 	vCover("compressed")
 }
 
-// native re-enactment with the real snappy codec: the library's reader must
-// return the rows (the specification reader cannot decompress real snappy)
+// native re-enactment with the real snappy codec: the specification reader
+// decompresses with the real decoder, and the library's reader must return the rows
 func VerifS_C02_specReaderCompressed() {
+	specModelCodec = true
+	specUncompressFn = func(b []byte) ([]byte, bool) {
+		out, err := (&Snappy).Decode(nil, b)
+		return out, err == nil
+	}
 	rows := []verifRecG{{ID: 1, Opt: 0, Name: "nx", Tags: []int32{1, 2}}, {ID: 7, Opt: 5, Name: "m"}}
 	if c, ok := vReplayVal("name[0]", 0); ok {
 		rows[0].Name = "n" + string([]byte{byte(c)})
@@ -105,6 +110,9 @@ func VerifS_C02_specReaderCompressed() {
 	if !ok {
 		vAssert(false, "file is written")
 		return
+	}
+	if _, ok := specDecodeFile(data, int64(len(rows))); !ok {
+		vAssert(false, "the specification reader decodes the compressed file")
 	}
 	verifReadBackG(data, rows)
 }
